@@ -95,6 +95,209 @@ def first_diff(a, b, path="top"):
     return (path, label(a), label(b))
 
 
+
+def confirmed_crashes(ctx, exe, env, cases, crashes):
+    """A time-out is reported only if it repeats when the case is run alone with a long watchdog
+    (on a loaded machine the first parse of a process can exceed the normal watchdog)."""
+    out = []
+    for c in crashes:
+        if c["crash"] == "TIMEOUT":
+            e2 = dict(env)
+            e2["REPLAY_WATCHDOG"] = "600"
+            o2, c2 = vlib.run_replayer(ctx, exe, e2, [cases[c["beh"]]], timeout=900, max_restarts=1)
+            if not c2:
+                ctx.notes.append("time-out not repeated: %r" % cases[c["beh"]]["text"][:80])
+                continue
+        out.append(c)
+    return out
+
+
+def conv_e(e):
+    return ["null"] if e.get("n") == "none" else conv(e)
+
+
+def conv_s(x):
+    """spec statement (JSON of the TLA+ record) -> the replayer's (normalised) list form"""
+    k = x["s"]
+    L = lambda body: ["list"] + [conv_s(y) for y in body]
+    if k == "expr":
+        return ["expr", conv(x["e"])]
+    if k == "decl":
+        ty = chars(x["ty"])
+        out = ["decl"]
+        for v in x["vars"]:
+            name = chars(v["name"])
+            t = ty
+            while name.startswith("*"):
+                t, name = t + " *", name[1:]
+            out.append(["var", t, name, conv_e(v["init"])])
+        return out
+    if k == "if":
+        elifs = ["list"] + [["elif", ["expr", conv(e["c"])], L(e["body"])] for e in x["elifs"]]
+        el = ["else", L(x["el"][0])] if x["el"] else ["noelse"]
+        return ["if", ["expr", conv(x["c"])], L(x["th"]), elifs, el]
+    if k == "while":
+        return ["while", ["expr", conv(x["c"])], L(x["body"])]
+    if k == "do":
+        return ["dowhile", ["expr", conv(x["c"])], L(x["body"])]
+    if k == "for":
+        opt = lambda e: ["emptystmt"] if e.get("n") == "none" else ["expr", conv(e)]
+        return ["for", conv_s(x["i"]), opt(x["c"]), opt(x["u"]), L(x["body"])]
+    if k == "switch":
+        return ["switch", ["expr", conv(x["c"])], L(x["body"])]
+    if k == "case":
+        return ["case", conv(x["v"])]
+    if k == "block":
+        return ["block", L(x["body"])]
+    if k == "return":
+        return ["return", ["null"]]
+    return [{"default": "default", "break": "break", "continue": "continue", "empty": "emptystmt"}[k]]
+
+
+def stmt_label(t):
+    return t[0] if isinstance(t, list) and t else "?"
+
+
+def body_of(tree):
+    """root -> function k -> statement list"""
+    try:
+        fn = [s for s in tree[1][1:] if s[0] == "function"][-1]
+        return fn[2]
+    except (IndexError, TypeError):
+        return None
+
+
+def gxx_programs(ctx, progs, tag):
+    """progs: list of (id, full text of `void k(int &a, int &b) {...}`).  Returns ({id: [a, b]}, {id: error})."""
+    if not progs:
+        return {}, {}
+    src = os.path.join(ctx.tmp, "prog_%s.cpp" % tag)
+    exe = os.path.join(ctx.tmp, "prog_%s" % tag)
+    remaining, bad = list(progs), {}
+    for attempt in range(40):
+        lines = ["#include <cstdio>"]
+        starts = []
+        for (i, text) in remaining:
+            starts.append(len(lines) + 1)
+            lines += ("namespace n%d {\n%s\n}" % (i, text.strip())).split("\n")
+        lines.append("int main() {")
+        for (i, _) in remaining:
+            lines.append("{ int a = 5, b = 3; n%d::k(a, b); printf(\"%d %%d %%d\\n\", a, b); }" % (i, i))
+        lines.append("return 0; }")
+        open(src, "w").write("\n".join(lines) + "\n")
+        rc, out = vlib.sh(["g++", "-std=c++17", "-w", "-O0", "-fwrapv", "-o", exe, src], timeout=900)
+        if rc == 0:
+            break
+        errl = sorted(set(int(m.group(1)) for m in re.finditer(r"prog_%s\.cpp:(\d+):\d+: error" % tag, out)))
+        hit = set()
+        for l in errl:
+            k = max((n for n, st in enumerate(starts) if st <= l), default=None)
+            if k is not None and l < (starts[k + 1] if k + 1 < len(starts) else len(lines) - len(remaining) - 1):
+                hit.add(k)
+        if not hit:
+            raise Broken("g++ failed without a usable error location:\n" + out[-2000:])
+        for k in hit:
+            bad[remaining[k][0]] = next((ln for ln in out.splitlines() if "error" in ln), "error")
+        remaining = [e for k, e in enumerate(remaining) if k not in hit]
+    else:
+        raise Broken("g++ kept failing on the program file")
+    rc, out = vlib.sh(["timeout", "60", exe], timeout=120)
+    if rc != 0:
+        raise Broken("program file crashed or hung (rc=%d): %s" % (rc, out[-1000:]))
+    vals = {}
+    for ln in out.splitlines():
+        q = ln.split()
+        vals[int(q[0])] = [int(v) for v in q[1:]]
+    return vals, bad
+
+
+def statements(ctx, exe, env, jvm, workers, thorough):
+    """CGrammar: statements and declarations."""
+    g = ctx.tlc("mc/MC_CGrammar.tla", "mc/CGrammar_%s.cfg" % ("thorough" if thorough else "quick"), workers=workers,
+                jvm=jvm, deadlock=False, timeout=2400, coverage=True)
+    ctx.tlc_must_pass(g, "CGrammar (ParseS(TokensS(p)) = p in both styles, same meaning)")
+    ctx.require_coverage(g, ["SPrint", "SParse", "SExec"])
+    try:
+        gen = b_json(g)
+    except (ValueError, AssertionError) as e:
+        raise Broken("unparseable behaviour line: %s" % e)
+    if len(gen) < 100:
+        raise Broken("implausibly few statement cases: %d" % len(gen))
+    items = []
+    for b in gen:
+        items.append({"spec": ["list"] + [conv_s(x) for x in b["tree"]], "style": b["style"], "body": chars(b["text"]),
+                      "sig": b["sig"], "env": b["env"]})
+    items.sort(key=lambda x: (x["body"], x["style"]))
+    head = "void k(int &a, int &b) {\n"
+    cases = [{"mode": "stmt", "text": head + it["body"] + "\n}\n"} for it in items]
+    outs, crashes = vlib.run_replayer(ctx, exe, env, cases, timeout=3000, max_restarts=100)
+    crashes = confirmed_crashes(ctx, exe, env, cases, crashes)
+    for c in crashes:
+        fn, kind = c12.crash_site(c.get("log", ""))
+        ctx.mismatch("crash:stmt:%s:%s:%s" % (c["crash"], kind, fn), "%s while processing %r" % (c["crash"], cases[c["beh"]]["text"]), [cases[c["beh"]]])
+    compared = reparsed = rejected = 0
+    printed = {}
+    for i, it in enumerate(items):
+        o = outs.get(i)
+        if o is None:
+            continue
+        rep = [dict(cases[i], spec_tree=it["spec"], spec_env=it["env"])]
+        if "exc" in o:
+            ctx.mismatch("exception:stmt", "exception on %r: %s" % (it["body"], o["exc"][:300]), rep)
+            continue
+        if not o.get("ok1"):
+            rejected += 1
+            continue
+        t1 = body_of(norm(o["t1"]))
+        compared += 1
+        d = first_diff(it["spec"], t1) if t1 is not None else ("top", "list", "none")
+        if d:
+            ctx.mismatch("stmt-parse-shape:%s:%s->%s" % d,
+                         "%r is parsed as %s, the grammar gives %s" % (it["body"], json.dumps(t1), json.dumps(it["spec"])), rep)
+        if not o.get("ok2"):
+            kinds = sorted(set(x[0] for x in walk(t1) if x[0] in ("str", "char"))) if t1 else []
+            ctx.mismatch("stmt-reparse-fails:%s" % ("+".join(label(x) for x in walk(t1) if x[0] in ("str", "char")) or "none"),
+                         "%r is printed as %r, which OCCA does not parse" % (it["body"], o.get("p1")), rep)
+            continue
+        reparsed += 1
+        t2 = body_of(norm(o["t2"]))
+        d2 = first_diff(t1, t2) if t2 is not None else ("top", "list", "none")
+        if d2:
+            ctx.mismatch("stmt-reparse-differs:%s:%s->%s" % d2,
+                         "%r is printed as %r and parsed back as %s instead of %s" % (it["body"], o.get("p1"), json.dumps(t2), json.dumps(t1)), rep)
+        if it["sig"] in ("go", "return"):
+            printed[i] = o["p1"]
+    if rejected > 0.5 * len(items):
+        raise Broken("OCCA rejected %d of %d generated programs" % (rejected, len(items)))
+    # values: g++ on the original (cross-check of the spec) and on the printed program
+    val_ids = [i for i, it in enumerate(items) if it["sig"] in ("go", "return")]
+    ov, obad = gxx_programs(ctx, [(i, cases[i]["text"]) for i in val_ids], "orig")
+    wrong = []
+    for i in val_ids:
+        if i in obad:
+            wrong.append("%r does not compile: %s" % (items[i]["body"], obad[i]))
+        elif ov.get(i) != items[i]["env"]:
+            wrong.append("%r: g++ %s, spec %s" % (items[i]["body"], ov.get(i), items[i]["env"]))
+    if wrong:
+        raise Broken("the specification's statement semantics disagree with g++ on %d original programs (check is broken, not OCCA):\n  %s"
+                     % (len(wrong), "\n  ".join(wrong[:12])))
+    pv, pbad = gxx_programs(ctx, sorted(printed.items()), "printed")
+    checked = 0
+    for i, text in sorted(printed.items()):
+        rep = [{"mode": "stmt", "text": cases[i]["text"], "printed": text, "spec_env": items[i]["env"]}]
+        top = stmt_label(items[i]["spec"][1]) if len(items[i]["spec"]) > 1 else "empty"
+        if i in pbad:
+            ctx.mismatch("stmt-printed-does-not-compile:%s" % top, "%r printed as %r: %s" % (items[i]["body"], text, pbad[i]), rep)
+        elif pv.get(i) != items[i]["env"]:
+            ctx.mismatch("stmt-value-changed:%s" % top, "%r gives (a, b) = %s but its printed form %r gives %s" % (items[i]["body"], items[i]["env"], text, pv.get(i)), rep)
+        else:
+            checked += 1
+    return {"programs_generated": len(items), "programs_compared_with_spec": compared, "programs_reparsed": reparsed,
+            "programs_rejected_by_occa": rejected, "program_values_checked_with_gxx": checked,
+            "program_spec_values_crosschecked": len(val_ids)}, compared, \
+           [{"text": items[i]["body"], "style": items[i]["style"], "final_a_b": items[i]["env"]} for i in (0, len(items) // 2, len(items) - 1)]
+
+
 WRAP_HEAD = "int f(int x, int y);\nvoid k(int a, int b, int c, int d, int *p) {\n  "
 WRAP_TAIL = ";\n}\n"
 
@@ -190,6 +393,7 @@ def run(ctx):
         cases.append({"mode": "stmt", "text": WRAP_HEAD + it["text"] + WRAP_TAIL})
         meta.append((k, "stmt"))
     outs, crashes = vlib.run_replayer(ctx, exe, env, cases, timeout=3000, max_restarts=200)
+    crashes = confirmed_crashes(ctx, exe, env, cases, crashes)
     for c in crashes:
         k, mode = meta[c["beh"]]
         fn, kind = c12.crash_site(c.get("log", ""))
@@ -269,12 +473,15 @@ def run(ctx):
         else:
             values_checked += 1
 
+    st_cov, st_compared, st_samples = statements(ctx, exe, env, jvm, workers, thorough)
+
     nrej = sum(rejected.values())
     if nrej > 0.6 * len(cases):
         raise Broken("OCCA rejected %d of %d generated texts: the comparison would be vacuous" % (nrej, len(cases)))
-    ctx.traces_validated = compared
+    ctx.traces_validated = compared + st_compared
     ctx.samples = [{"text": items[k]["text"], "tree": items[k]["spec"], "value": items[k]["v"]} for k in
-                   (0, len(items) // 4, len(items) // 2, 3 * len(items) // 4, len(items) - 1)]
+                   (0, len(items) // 4, len(items) // 2, 3 * len(items) // 4, len(items) - 1)] + st_samples
+    ctx.cov.update(st_cov)
     ctx.cov.update({"expressions_generated": len(items), "texts_executed": len(outs), "trees_compared_with_spec": compared,
                     "reparsed_and_compared": reparsed, "values_checked_with_gxx": values_checked,
                     "spec_values_crosschecked_with_gxx": len(val_ids), "rejected_by_occa": nrej,
@@ -285,6 +492,9 @@ def run(ctx):
         "texts that OCCA does not parse are outside the property (counted in rejected_by_occa; the run is broken if they exceed 60%)",
         "values: int semantics on small values, variables a,b,c,d = 5,3,2,7; expressions with unsequenced side effects, pointers, "
         "members or out-of-range results have no value and are compared structurally only",
+        "statements/declarations: if/else-if/else incl. every dangling-else association, while, do, for (declaration, expression and empty "
+        "headers), switch with fall-through, blocks, break/continue/return, declarations with initialisers (casts, char and string "
+        "literals with escapes), in two source styles (all bodies braced / minimal braces); bodies of void k(int &a, int &b)",
         "g++ is the reference for C++ values; the spec's values are cross-checked against it on the original texts in every run",
     ]
     return ctx.finish(exhaustive=False)
